@@ -138,6 +138,16 @@ def _file_roundtrip(con, name, machine):
 
 
 def _meaning_viol(what, d_back, ref_a, ref_g, names, rel, box):
+    v = _meaning_viol0(what, d_back, ref_a, ref_g, names, rel, box)
+    if v is not None:
+        mags = [abs(x) for t in ref_a + ref_g for x in t[0].values() if x != 0]
+        v["sig"]["ill_conditioned"] = bool(mags) and max(mags) / min(mags) >= 1e5
+        d = v["detail"]
+        v["sig"]["marginal"] = bool(d["lhs_float"] - d["bound"] <= 1e-2 * (1 + abs(d["bound"])))
+    return v
+
+
+def _meaning_viol0(what, d_back, ref_a, ref_g, names, rel, box):
     e = exact.equivalent(d_back["a"], ref_a, names, rel=rel, box=box)
     if e:
         return {"what": "%s: assumptions differ from the expected reading (%s)" % (what, e["direction"]),
